@@ -69,8 +69,9 @@ type nodeChk struct {
 
 	// C16
 	episodes map[uint64]*fcEpisode
-	ucWindow uint64 // payload bytes accepted in the current window
-	ucTerm   uint64
+	ucAccepted, ucApplied uint64
+	ucTerm                uint64
+	snapPending           map[uint64]bool
 
 	// C17
 	lastHeardTick uint64
@@ -297,7 +298,8 @@ func (k *Checker) onStart(n *Node, restart bool) {
 	x.applyOutSizes = nil
 	x.snapOutstanding = false
 	x.episodes = map[uint64]*fcEpisode{}
-	x.ucWindow = 0
+	x.ucAccepted, x.ucApplied = 0, 0
+	x.snapPending = map[uint64]bool{}
 	x.heardValid = false
 	x.isLeader = false
 	x.heardTick = map[uint64]uint64{}
@@ -368,6 +370,12 @@ func (k *Checker) preCall(n *Node, what string, m *pb.Message) {
 		// promises (self vote, self append ack).
 		for _, sm := range n.st.StepsOnAdvance {
 			k.onLocalResp(n, sm)
+			if sm.GetType() == pb.MsgStorageApplyResp && isLeader(&n.st) {
+				x := k.nc[n.id]
+				for _, e := range sm.GetEntries() {
+					x.ucApplied += uint64(len(e.GetData()))
+				}
+			}
 		}
 		x := k.nc[n.id]
 		if len(x.applyOutSizes) > 0 {
